@@ -87,3 +87,33 @@ func (a Adapter) ReverseIterator(start, end []byte) storetypes.Iterator {
 }
 func (a Adapter) GetStoreType() storetypes.StoreType { return storetypes.StoreTypeDB }
 func (a Adapter) CacheWrap() storetypes.CacheWrap    { panic("CacheWrap not modelled") }
+
+// KVStorePrefixIterator models storetypes.KVStorePrefixIterator: all keys with the prefix, ascending.
+//
+//verif:model github.com/cosmos/cosmos-sdk/store/v2/types.KVStorePrefixIterator
+func KVStorePrefixIterator(kvs storetypes.KVStore, prefix []byte) storetypes.Iterator {
+	return kvs.Iterator(prefix, PrefixEndBytes(prefix))
+}
+
+// PrefixEndBytes models storetypes.PrefixEndBytes.
+//
+//verif:model github.com/cosmos/cosmos-sdk/store/v2/types.PrefixEndBytes
+func PrefixEndBytes(prefix []byte) []byte {
+	if len(prefix) == 0 {
+		return nil
+	}
+	end := make([]byte, len(prefix))
+	copy(end, prefix)
+	for {
+		if end[len(end)-1] != 255 {
+			end[len(end)-1]++
+			break
+		}
+		end = end[:len(end)-1]
+		if len(end) == 0 {
+			end = nil
+			break
+		}
+	}
+	return end
+}
